@@ -559,3 +559,79 @@ Proof.
   induction l as [|h t IH]; intros [|i] [|j] x H; cbn; try reflexivity; try congruence.
   apply IH. congruence.
 Qed.
+
+(* ---------- A1 addressing goes through the same two entry points ---------- *)
+From NP Require Import Model.A1 Proofs.A1P.
+Open Scope Z_scope.
+
+Definition read_a1 (t : table) (s : list N) : result cell :=
+  match xl_cell_to_rowcol s with Ok (r, c) => read t r c | Err e => Err e end.
+Definition write_a1 (t : table) (s : list N) (v : Z) : result table :=
+  match xl_cell_to_rowcol s with Ok (r, c) => write t r c v | Err e => Err e end.
+
+Theorem a1_same_cell_lemma (t : table) (r c : Z) ra ca (v : Z) s : 0 <= r -> 0 <= c < 18278 ->
+  xl_rowcol_to_cell r c ra ca = Ok s ->
+  read_a1 t s = read t r c /\ write_a1 t s v = write t r c v.
+Proof.
+  intros Hr Hc Hs. pose proof (a1_roundtrip_lemma r c ra ca Hr Hc) as H.
+  rewrite Hs in H. cbn [bind] in H. unfold read_a1, write_a1. now rewrite H.
+Qed.
+
+(* 'A0' (and any text whose row decodes to -1) is refused by write and by read *)
+Theorem a1_row_zero_refused (t : table) s (c v : Z) : xl_cell_to_rowcol s = Ok (-1, c) ->
+  write_a1 t s v = Err IndexError /\ read_a1 t s = Err IndexError.
+Proof.
+  intros H. unfold write_a1, read_a1. rewrite H. split.
+  - apply write_bounds_lemma. lia.
+  - apply read_bounds_lemma. lia.
+Qed.
+
+(* ---------- iteration ---------- *)
+Theorem iter_rows_bounds_lemma t a b c d :
+  let r0 := match a with Some x => x | None => 0 end in
+  let r1 := match b with Some x => x | None => nrows t - 1 end in
+  let c0 := match c with Some x => x | None => 0 end in
+  let c1 := match d with Some x => x | None => ncols t - 1 end in
+  (r0 < 0 \/ nrows t <= r1 \/ c0 < 0 \/ ncols t <= c1) ->
+  iter_rows t a b c d = Err IndexError /\ iter_cols t c d a b = Err IndexError.
+Proof.
+  intros r0 r1 c0 c1 H. unfold iter_rows, iter_cols. fold r0 r1 c0 c1.
+  destruct (Z.ltb_spec r0 0); [split; reflexivity|]. destruct (Z.leb_spec (nrows t) r1); [split; reflexivity|].
+  destruct (Z.ltb_spec c0 0); [split; reflexivity|]. destruct (Z.leb_spec (ncols t) c1); [split; reflexivity|]. lia.
+Qed.
+
+(* inside the table, iteration yields exactly the addressed rectangle, row by row (resp. column by column), in order *)
+Theorem iter_rows_rectangle_lemma t r0 r1 c0 c1 :
+  0 <= r0 -> r1 < nrows t -> 0 <= c0 -> c1 < ncols t ->
+  iter_rows t (Some r0) (Some r1) (Some c0) (Some c1) =
+    Ok (map (fun r => py_slice (nth (Z.to_nat r) (data t) []) c0 (c1 + 1)) (zrange r0 (r1 + 1))) /\
+  iter_cols t (Some c0) (Some c1) (Some r0) (Some r1) =
+    Ok (map (fun c => flat_map (fun row => match nth_error row (Z.to_nat c) with Some x => [x] | None => [] end)
+                               (py_slice (data t) r0 (r1 + 1))) (zrange c0 (c1 + 1))).
+Proof.
+  intros H0 H1 H2 H3. unfold iter_rows, iter_cols.
+  destruct (Z.ltb_spec r0 0); [lia|]. destruct (Z.leb_spec (nrows t) r1); [lia|].
+  destruct (Z.ltb_spec c0 0); [lia|]. destruct (Z.leb_spec (ncols t) c1); [lia|]. split; reflexivity.
+Qed.
+
+Lemma py_slice_length {A} (l : list A) a b : 0 <= a -> b <= Z.of_nat (length l) ->
+  length (py_slice l a b) = Z.to_nat (b - a).
+Proof. intros. unfold py_slice. rewrite firstn_length, skipn_length. lia. Qed.
+
+(* ... and the rectangle has the addressed shape: r1-r0+1 lines of c1-c0+1 cells *)
+Theorem iter_rows_shape_lemma t r0 r1 c0 c1 L : wf t ->
+  0 <= r0 -> r1 < nrows t -> 0 <= c0 -> c1 < ncols t ->
+  iter_rows t (Some r0) (Some r1) (Some c0) (Some c1) = Ok L ->
+  length L = Z.to_nat (r1 + 1 - r0) /\ Forall (fun line => length line = Z.to_nat (c1 + 1 - c0)) L.
+Proof.
+  intros (A & B & C) H0 H1 H2 H3 H.
+  rewrite (proj1 (iter_rows_rectangle_lemma t r0 r1 c0 c1 H0 H1 H2 H3)) in H. injection H as <-.
+  rewrite map_length, zrange_length. split; [reflexivity|].
+  apply Forall_map. apply Forall_forall. intros r Hr.
+  unfold zrange in Hr. apply in_map_iff in Hr as (i & <- & Hi). apply in_seq in Hi.
+  assert (Hlt : (Z.to_nat (r0 + Z.of_nat i) < length (data t))%nat) by lia.
+  destruct (nth_error (data t) (Z.to_nat (r0 + Z.of_nat i))) as [row|] eqn:E; [|apply nth_error_None in E; lia].
+  rewrite (nth_error_nth _ _ _ E).
+  pose proof (proj1 (Forall_forall _ _) C row (nth_error_In _ _ E)) as Hl. cbn beta in Hl.
+  apply py_slice_length; lia.
+Qed.
